@@ -388,10 +388,83 @@ fn worker(ctx: &WorkerCtx) -> Result<(), Fail> {
         st.class("directed: knight shuffle with > 255 repetitions");
         st.nontrivial(digest(&plies));
     }
+    if ctx.idx == 1 % ctx.n {
+        let mut st = ctx.stats.borrow_mut();
+        host_stage(&mut st, ctx.tier).map_err(|d| Fail { case: json!({"host_stage": true}), detail: d })?;
+    }
     run_proptest(ctx, 15, ctx.share(ctx.tier.pick(100_000, 1_500_000)), strategy(), |c| serde_json::to_value(c).unwrap(), run_case)
 }
 
+/// The referee loop of `chess-cli bot-fight` is an anchor of the property: it keeps two plugin
+/// instances in step through make_move and reads flags, boards and proposals from them. Two
+/// copies of the plugin built from the tree play a few games against each other under the
+/// real host with the engine's own wall-clock limit (1 ms, 3 ms and 0 s per move). The only
+/// verdict is a panic / abort of the host process; slowness and other exit codes are none.
+fn host_stage(st: &mut Stats, tier: Tier) -> Result<(), String> {
+    use std::process::{Command, Stdio};
+    let bin = std::env::var("VERIF_CHESS_CLI").unwrap_or_else(|_| "/verif/target/release/chess-cli".to_string());
+    if !Path::new(&bin).exists() {
+        st.class("host stage skipped: chess-cli binary not built");
+        return Ok(());
+    }
+    for (games, tc) in [(tier.pick(1, 3), "1ms"), (1, "3ms"), (1, "0s")] {
+        let mut ch = match Command::new(&bin)
+            .args(["bot-fight", PLUGIN, PLUGIN, "-g", &games.to_string(), "-t", tc, "--thread-count", "2"])
+            .env("RUST_BACKTRACE", "0")
+            .stdin(Stdio::null())
+            .stdout(Stdio::null())
+            .stderr(Stdio::piped())
+            .spawn()
+        {
+            Ok(c) => c,
+            Err(_) => {
+                st.class("host stage: could not start the binary (no verdict)");
+                return Ok(());
+            }
+        };
+        let mut err = ch.stderr.take().expect("piped");
+        let reader = std::thread::spawn(move || {
+            use std::io::Read;
+            let mut s = String::new();
+            let _ = err.read_to_string(&mut s);
+            s
+        });
+        let t0 = std::time::Instant::now();
+        let status = loop {
+            match ch.try_wait() {
+                Ok(Some(s)) => break Some(s),
+                Ok(None) if t0.elapsed() > std::time::Duration::from_secs(120) => {
+                    let _ = ch.kill();
+                    let _ = ch.wait();
+                    break None;
+                }
+                Ok(None) => std::thread::sleep(std::time::Duration::from_millis(20)),
+                Err(_) => break None,
+            }
+        };
+        let text = reader.join().unwrap_or_default();
+        match status {
+            None => st.class("host stage: games did not finish in 120 s (no verdict)"),
+            Some(s) => {
+                use std::os::unix::process::ExitStatusExt;
+                let panicked = text.contains("panicked at");
+                if (s.code() == Some(101) && panicked) || s.signal().is_some() {
+                    let line = text.lines().find(|l| l.contains("panicked at")).unwrap_or("").to_string();
+                    let after: String = text.lines().skip_while(|l| !l.contains("panicked at")).skip(1).take(3).collect::<Vec<_>>().join(" | ");
+                    return Err(format!("C15 chess-cli bot-fight between two copies of the plugin ({games} game(s) per pairing at {tc} per move) ends in {s:?}: {line} | {after}"));
+                }
+                st.class(if s.success() { "host stage: plugin-vs-plugin games refereed to the end" } else { "host stage: host exited with an error code, no panic (no verdict)" });
+            }
+        }
+        st.eval(1);
+    }
+    Ok(())
+}
+
 fn replay(v: &Value) -> Result<(), String> {
+    if v.get("host_stage").is_some() {
+        return host_stage(&mut Stats::new(), Tier::Quick);
+    }
     if let Some(p) = v.get("long_shuffle") {
         return long_shuffle(p.as_u64().unwrap_or(1100) as usize);
     }
@@ -403,7 +476,7 @@ pub const C15: CheckDef = CheckDef {
     id: "C15",
     worker,
     replay,
-    rule: "system under test: libchess_bot.so built from the working tree, loaded through chess_api::ChessApiRef::load_from_file, a fresh new_engine() per case, driven only through chess_api::ChessEngine. case = op list over {set_board(generated position), set_board(the current position again, other clocks), legal move (biased classes), arbitrary (from,to,promotion) triple, near miss of a legal move (promotion without piece, ordinary move with a piece, castling target without the right, en-passant square without marker), reversible manoeuvre a b a^-1 b^-1 repeated r <= 5 times, board(), evaluate(limit k)}; a directed family repeats a knight shuffle for > 1000 plies (> 255 repetitions). Oracle: reference position + HashMap<position key, count> cleared by set_board: make_move valid iff reference-legal; invalid leaves board() unchanged and raises no flag; valid makes board() equal the reference successor (text, ==, hash) and raises the flag iff the new key's count becomes exactly 3; evaluate returns None or a reference-legal move. Whether the set position itself counts as the first occurrence is calibrated at the start of every run with a 12-ply knight shuffle (flag at ply 8 -> counts; at ply 12 -> does not) and the reading in force is recorded in samples; a plugin that fits neither reading is a violation. Non-trivial = some key reaches count >= 3, or an illegal move is offered after >= 1 legal move; distinct by move trace.",
+    rule: "system under test: libchess_bot.so built from the working tree, loaded through chess_api::ChessApiRef::load_from_file, a fresh new_engine() per case, driven only through chess_api::ChessEngine. case = op list over {set_board(generated position), set_board(the current position again, other clocks), legal move (biased classes), arbitrary (from,to,promotion) triple, near miss of a legal move (promotion without piece, ordinary move with a piece, castling target without the right, en-passant square without marker), reversible manoeuvre a b a^-1 b^-1 repeated r <= 5 times, board(), evaluate(limit k)}; a directed family repeats a knight shuffle for > 1000 plies (> 255 repetitions); a host stage lets two copies of the plugin play under the real `chess-cli bot-fight` referee at 1 ms, 3 ms and 0 s per move (verdict: host panic / abort only). Oracle: reference position + HashMap<position key, count> cleared by set_board: make_move valid iff reference-legal; invalid leaves board() unchanged and raises no flag; valid makes board() equal the reference successor (text, ==, hash) and raises the flag iff the new key's count becomes exactly 3; evaluate returns None or a reference-legal move. Whether the set position itself counts as the first occurrence is calibrated at the start of every run with a 12-ply knight shuffle (flag at ply 8 -> counts; at ply 12 -> does not) and the reading in force is recorded in samples; a plugin that fits neither reading is a violation. Non-trivial = some key reaches count >= 3, or an illegal move is offered after >= 1 legal move; distinct by move trace.",
     assumptions: &[
         "position identity = placement, side to move, castling rights, en-passant file (as the property states)",
         "the occurrence-counting reading is calibrated, not assumed (DESIGN.md C15)",
